@@ -52,6 +52,12 @@ func WithGlobalTx(ctx context.Context, gc *GtxConfig, business CallbackWithCtx) 
 	// open global transaction for the first time
 	if !IsSeataContext(ctx) {
 		ctx = InitSeataContext(ctx)
+	} else {
+		// the context is shared with the caller (local nesting): whatever this scope does to
+		// the bound transaction (join as participant, suspend, begin a new one) must not leak
+		// out, or the enclosing scope could not finish its own second phase.
+		saved := *GetTx(ctx)
+		defer SetTx(ctx, &saved)
 	}
 
 	if IsGlobalTx(ctx) {
